@@ -205,6 +205,12 @@ func c11Corpus(c *core.Ctx) []oracle.Prog {
 	g.errorsFam()
 	g.heap(perms)
 	g.hookCallers()
+	// identity dimensions (c11_seq2.go)
+	g.sharedUnderlying(thorough)
+	g.typedConstants()
+	g.sharedUnderlyingBehaviour(c11Perms(4))
+	g.oneTypeManyInterfaces()
+	g.closureIdentity()
 	return g.progs
 }
 
